@@ -1,16 +1,25 @@
 import IblVerif.Model.Proto
 import IblVerif.Model.Converter
+import IblVerif.Model.ConverterSteps
 open IblVerif IblVerif.Proto IblVerif.Converter
 
 /-
 Line protocol of C04 (one history per line):
 
-    hist <np24|np21|np1> <n> <ns>[h<header frames>][t] <w> <ov> <bin|cbin>[@<k>] <call> <call> …      (@k: the first k shank folders pre-exist, empty)
+    hist <np24|np21|np1> <n>[p] <ns>[h<header frames>][t] <w> <ov> <bin|cbin>[@<k>] <call> <call> …      (@k: the first k shank folders pre-exist, empty)
     call = <postCheck><compress><deleteOriginal><overwrite><onShank><reuse>:<interrupt>:<corrupt>     six 0/1 digits
            (reuse = 1: process() again on the converter object of the previous call)
     interrupt = - | s<j> | m<j> | v<k> | c<j> | d            corrupt = - | <shank>.<kp>.<kv>  (altered sample: shank, processing window, verification window)
 
-Answer: one `<result>@<disk>#<object>` token per call: the disk after that call and the object's check_completed /
+    trace  <same header> <call> … <call>        the LAST call seen as an effect sequence (Model/ConverterSteps.lean), uninterrupted:
+                                                answer `ok <hooks passed, one letter each, or -> <result>@<disk>#<object>` where the state is
+                                                the one after ALL effects applied in order and the result is `statusObj`
+    prefix <same header> <call> … <call>        the LAST call carries the interrupt `g<k>`: the environment raises at the k-th hook
+                                                the run passes (any kind); answer `ok <result>@<disk>#<object>` = the state after the
+                                                effects that precede that hook (`beforeHook`), `raise:injected`; for k ≥ number of
+                                                hooks the uninterrupted outcome
+
+Answer of `hist`: one `<result>@<disk>#<object>` token per call: the disk after that call and the object's check_completed /
 already_exists flags (`-` when no object was built).  Parsing and printing only; the
 transition function is `Converter.run`, the one the theorems are about.
 -/
@@ -84,26 +93,38 @@ def history (cfg : Cfg) : St → List Call → List String
     let r := run cfg c s
     (showResult r.2 ++ "@" ++ showDisk cfg r.1.disk ++ "#" ++ showObj r.1.obj) :: history cfg r.1 cs
 
+/-- the header shared by `hist`, `trace`, `prefix`: configuration and start state -/
+def header? (kind n ns w ov o : String) : Option (Cfg × St) :=
+  let k : Option Kind := if kind = "np24" then some .np24 else if kind = "np21" then some .np21
+    else if kind = "np1" then some .np1 else none
+  let op := o.splitOn "@"
+  let of := op.headD ""
+  let o0 : Option Orig := if of = "bin" then some .bin else if of = "cbin" then some .cbin else none
+  let pre : Option Nat := match op with | [_] => some 0 | [_, k] => k.toNat? | _ => none
+  let trail := ns.endsWith "t"
+  let nsp := (if trail then (ns.dropEnd 1).toString else ns).splitOn "h"
+  let nsd : Option Nat := nsp.head?.bind (·.toNat?)
+  let hdr : Option Nat := match nsp with | [a] => a.toNat? | [_, b] => b.toNat? | _ => none
+  -- n token: <number of shanks converted>[p]   (p: they are a proper subset of the probe's shanks, init_params(nshank=[…]))
+  let part := n.endsWith "p"
+  let nn : Option Nat := nat? (if part then (n.dropEnd 1).toString else n)
+  match k, nn, nsd, hdr, nat? w, nat? ov, o0, pre with
+  | some k, some n, some ns, some hdr, some w, some ov, some o0, some pre =>
+    if w ≤ ov then none else
+    some ({ kind := k, n := n, ns := ns, w := w, ov := ov, c := 7, hdrNs := hdr, trailing := trail, partialSel := part },
+      St.start (freshWith o0 pre))
+  | _, _, _, _, _, _, _, _ => none
+
 def step (t : List String) : String :=
   match t with
   | "hist" :: kind :: n :: ns :: w :: ov :: o :: calls =>
-    let k : Option Kind := if kind = "np24" then some .np24 else if kind = "np21" then some .np21
-      else if kind = "np1" then some .np1 else none
-    let op := o.splitOn "@"
-    let of := op.headD ""
-    let o0 : Option Orig := if of = "bin" then some .bin else if of = "cbin" then some .cbin else none
-    let pre : Option Nat := match op with | [_] => some 0 | [_, k] => k.toNat? | _ => none
-    -- ns token: <frames on disk>[h<frames announced by the header>][t]   (t: trailing partial frame)
-    let trail := ns.endsWith "t"
-    let nsp := (if trail then (ns.dropEnd 1).toString else ns).splitOn "h"
-    let nsd : Option Nat := nsp.head?.bind (·.toNat?)
-    let hdr : Option Nat := match nsp with | [a] => a.toNat? | [_, b] => b.toNat? | _ => none
-    match k, nat? n, nsd, hdr, nat? w, nat? ov, o0, pre, calls.mapM call? with
-    | some k, some n, some ns, some hdr, some w, some ov, some o0, some pre, some cs =>
-      if w ≤ ov then "err diverges" else
-      let cfg : Cfg := { kind := k, n := n, ns := ns, w := w, ov := ov, c := 7, hdrNs := hdr, trailing := trail }
-      "ok " ++ " ".intercalate (history cfg (St.start (freshWith o0 pre)) cs)
-    | _, _, _, _, _, _, _, _, _ => "bad-op"
+    match nat? w, nat? ov with
+    | some w', some ov' =>
+      if w' ≤ ov' then "err diverges" else
+      match header? kind n ns w ov o, calls.mapM call? with
+      | some (cfg, st0), some cs => "ok " ++ " ".intercalate (history cfg st0 cs)
+      | _, _ => "bad-op"
+    | _, _ => "bad-op"
   | ["counts", ns, w, ov] =>
     match nat? ns, nat? w, nat? ov with
     | some ns, some w, some ov =>
@@ -113,4 +134,49 @@ def step (t : List String) : String :=
     | _, _, _ => "bad-op"
   | _ => "bad-op"
 
-def main : IO Unit := run step
+/-- the object whose `process` the call runs -/
+def acting (cfg : Cfg) (call : Call) (st : St) : Option Obj :=
+  if call.reuse then st.obj else (construct cfg call st.disk).toOption
+
+/-- `g<k>` in the interrupt field of a call token: the call without interruption, and `k` -/
+def gcall? (s : String) : Option (Call × Nat) :=
+  match s.splitOn ":" with
+  | [b, i, c] =>
+    match i.toList with
+    | 'g' :: r => (String.ofList r).toNat?.bind fun k => (call? (b ++ ":-:" ++ c)).map fun cl => (cl, k)
+    | _ => none
+  | _ => none
+
+def showState (cfg : Cfg) (r : Result) (x : Disk × Obj) : String :=
+  showResult r ++ "@" ++ showDisk cfg x.1 ++ "#" ++ showObj (some x.2)
+
+def traceOf (cfg : Cfg) (st : St) (call : Call) : String :=
+  match acting cfg call st with
+  | none => "none"
+  | some ob =>
+    let es := effectsObj cfg ob call st.disk
+    let hs := hooksOf es
+    (if hs.isEmpty then "-" else String.ofList hs) ++ " " ++
+      showState cfg (statusObj cfg ob call st.disk) (applyEffs cfg call es (st.disk, ob))
+
+def prefixOf (cfg : Cfg) (st : St) (call : Call) (k : Nat) : String :=
+  match acting cfg call st with
+  | none => "none"
+  | some ob =>
+    let es := effectsObj cfg ob call st.disk
+    if k < (hooksOf es).length then showState cfg (.raised .injected) (applyEffs cfg call (beforeHook es k) (st.disk, ob))
+    else showState cfg (statusObj cfg ob call st.disk) (applyEffs cfg call es (st.disk, ob))
+
+def step2 (t : List String) : String :=
+  match t with
+  | "trace" :: kind :: n :: ns :: w :: ov :: o :: calls =>
+    match header? kind n ns w ov o, calls.dropLast.mapM call?, calls.getLast?.bind call? with
+    | some (cfg, st0), some cs, some last => "ok " ++ traceOf cfg (runs cfg st0 cs) { last with interrupt := none }
+    | _, _, _ => "bad-op"
+  | "prefix" :: kind :: n :: ns :: w :: ov :: o :: calls =>
+    match header? kind n ns w ov o, calls.dropLast.mapM call?, calls.getLast?.bind gcall? with
+    | some (cfg, st0), some cs, some (last, k) => "ok " ++ prefixOf cfg (runs cfg st0 cs) last k
+    | _, _, _ => "bad-op"
+  | _ => step t
+
+def main : IO Unit := run step2
